@@ -135,26 +135,26 @@ Proof. destruct q; reflexivity. Qed.
 
 (* ---------- the theorems ---------- *)
 Theorem never_missed_index hi s i c q :
-  Reach hi s -> Coherent s -> hi < i -> safe_cmd c s -> safe_query q ->
+  Reach hi s -> hi < i -> safe_query q ->
   res q (apply i c s) <> res q s -> idx q s < idx q (apply i c s).
 Proof.
-  intros HR HC Hlt Hs Hq Hc.
+  intros HR Hlt Hq Hc.
   pose proof (Reach_Bnd _ _ HR) as HBhi.
   assert (HBnd : Bnd i s) by (eapply Bnd_mono; [|exact HBhi]; lia).
   pose proof (okq_idx_le hi s q HBhi Hq) as Hle.
   unfold apply in *. destruct (trace i c s) as [ps|] eqn:Et; [|contradiction Hc; reflexivity].
   destruct (reap_dec c) as [[u ->]|Hr].
   { cbn in Et. injection Et as <-. cbn [prun foldl] in Hc. rewrite res_reap in Hc. contradiction Hc; reflexivity. }
-  destruct (trace_ok i c s ps Et Hr) as (HV & HS0 & _). pose proof (HS0 HC) as HS.
-  pose proof (run_changed i ps s q HBnd HV (HS Hs) Hq) as H.
+  destruct (trace_ok i c s ps Et Hr) as (HV & _).
+  pose proof (run_changed i ps s q HBnd HV (Safe_all _ _ _) Hq) as H.
   assert (i <= idx q (prun i ps s)) by (apply H; intros Heq; apply Hc; rewrite Heq; reflexivity). lia.
 Qed.
 
 Theorem never_missed_fires hi s i c q :
-  Reach hi s -> Coherent s -> hi < i -> safe_cmd c s -> safe_query q ->
+  Reach hi s -> hi < i -> safe_query q ->
   res q (apply i c s) <> res q s -> fires (ws q s) (touched i c s) = true.
 Proof.
-  intros HR HC Hlt Hs Hq Hc. unfold touched.
+  intros HR Hlt Hq Hc. unfold touched.
   destruct (decide (csn_optimised q s)) as [Hopt|Hopt].
   2: { apply fires_pure; [exact Hq|exact Hopt|]. intros Heq. apply Hc. rewrite Heq. reflexivity. }
   (* the optimised CheckServiceNodes watch: only the service.<name> row *)
@@ -170,24 +170,24 @@ Proof.
   unfold apply in *. destruct (trace i c s) as [ps|] eqn:Et; [|contradiction Hc; reflexivity].
   destruct (reap_dec c) as [[u ->]|Hr].
   { cbn in Et. injection Et as <-. cbn [prun foldl] in Hc. rewrite res_reap in Hc. contradiction Hc; reflexivity. }
-  destruct (trace_ok i c s ps Et Hr) as (HV & HS0 & _). pose proof (HS0 HC) as HS.
+  destruct (trace_ok i c s ps Et Hr) as (HV & _).
   assert (HJ : J name s <> J name (prun i ps s)).
   { intros HJ. apply Hc. symmetry. eapply (svcq_res name true); [constructor|exact HJ]. }
   pose proof (bnd_index _ _ HBhi _ _ Hv) as Hvle.
-  destruct (run_fresh i ps s name HBnd HV (HS Hs) HJ) as [Hf|Hf]; rewrite Hf; [|discriminate].
+  destruct (run_fresh i ps s name HBnd HV (Safe_all _ _ _) HJ) as [Hf|Hf]; rewrite Hf; [|discriminate].
   intros Heq. injection Heq as ->. lia.
 Qed.
 
 Theorem monotone_index hi s i c q :
-  Reach hi s -> Coherent s -> hi < i -> safe_cmd c s -> safe_query q -> (forall u, c <> Reap u) ->
+  Reach hi s -> hi < i -> safe_query q -> (forall u, c <> Reap u) ->
   idx q s <= idx q (apply i c s).
 Proof.
-  intros HR HC Hlt Hs Hq Hr.
+  intros HR Hlt Hq Hr.
   pose proof (Reach_Bnd _ _ HR) as HBhi.
   assert (HBnd : Bnd i s) by (eapply Bnd_mono; [|exact HBhi]; lia).
   unfold apply. destruct (trace i c s) as [ps|] eqn:Et; [|lia].
-  destruct (trace_ok i c s ps Et Hr) as (HV & HS0 & _). pose proof (HS0 HC) as HS.
-  apply run_mono; try assumption. apply HS, Hs.
+  destruct (trace_ok i c s ps Et Hr) as (HV & _).
+  apply run_mono; try assumption. apply Safe_all.
 Qed.
 
 Theorem nonzero_reported q s : 1 <= reported q s.
@@ -266,11 +266,11 @@ Qed.
 
 (* with the floor: Raft never hands index 1 to a client write *)
 Theorem never_missed_reported hi s i c q :
-  Reach hi s -> Coherent s -> hi < i -> 1 < i -> safe_cmd c s -> safe_query q ->
+  Reach hi s -> hi < i -> 1 < i -> safe_query q ->
   res q (apply i c s) <> res q s -> reported q s < reported q (apply i c s).
 Proof.
-  intros HR HC Hlt H1 Hs Hq Hc.
-  pose proof (never_missed_index hi s i c q HR HC Hlt Hs Hq Hc) as Hidx.
+  intros HR Hlt H1 Hq Hc.
+  pose proof (never_missed_index hi s i c q HR Hlt Hq Hc) as Hidx.
   pose proof (okq_idx_le hi s q (Reach_Bnd _ _ HR) Hq) as Hle.
   assert (i <= idx q (apply i c s)).
   { pose proof (Reach_Bnd _ _ HR) as HBhi.
@@ -278,8 +278,8 @@ Proof.
     unfold apply in *. destruct (trace i c s) as [ps|] eqn:Et; [|contradiction Hc; reflexivity].
     destruct (reap_dec c) as [[u ->]|Hr].
     { cbn in Et. injection Et as <-. cbn [prun foldl] in Hc. rewrite res_reap in Hc. contradiction Hc; reflexivity. }
-    destruct (trace_ok i c s ps Et Hr) as (HV & HS0 & _). pose proof (HS0 HC) as HS.
-    apply (run_changed i ps s q HBnd HV (HS Hs) Hq).
+    destruct (trace_ok i c s ps Et Hr) as (HV & _).
+    apply (run_changed i ps s q HBnd HV (Safe_all _ _ _) Hq).
     intros Heq; apply Hc; rewrite Heq; reflexivity. }
   unfold reported. lia.
 Qed.
@@ -349,16 +349,16 @@ Proof.
 Qed.
 
 Theorem highwater_okq hi s i c q :
-  Reach hi s -> Coherent s -> hi < i -> safe_cmd c s -> okq q ->
+  Reach hi s -> hi < i -> okq q ->
   res q (apply i c s) <> res q s -> i <= idx q (apply i c s).
 Proof.
-  intros HR HC Hlt Hs Hq Hc. pose proof (Reach_Bnd _ _ HR) as HBhi.
+  intros HR Hlt Hq Hc. pose proof (Reach_Bnd _ _ HR) as HBhi.
   assert (HBnd : Bnd i s) by (eapply Bnd_mono; [|exact HBhi]; lia).
   unfold apply in *. destruct (trace i c s) as [ps|] eqn:Et; [|contradiction Hc; reflexivity].
   destruct (reap_dec c) as [[u ->]|Hr].
   { cbn in Et. injection Et as <-. cbn [prun foldl] in Hc. rewrite res_reap in Hc. contradiction Hc; reflexivity. }
-  destruct (trace_ok i c s ps Et Hr) as (HV & HS0 & _). pose proof (HS0 HC) as HS.
-  apply (run_changed i ps s q HBnd HV (HS Hs) Hq). intros Heq; apply Hc; rewrite Heq; reflexivity.
+  destruct (trace_ok i c s ps Et Hr) as (HV & _).
+  apply (run_changed i ps s q HBnd HV (Safe_all _ _ _) Hq). intros Heq; apply Hc; rewrite Heq; reflexivity.
 Qed.
 
 Theorem fires_plain hi s i c q :
